@@ -247,3 +247,46 @@ def extract_codec():
     body = HEADER + "(* dds/codec.py, dds/codecs/builtins.py, dds/codecs/pandas.py *)\n"
     body += "Definition c_default_file_codecs : list (string * list string) :=\n  [" + "; ".join(f"({cstr(r)}, {clist(t)})" for r, t in table) + "].\n"
     return body
+
+
+@register("ConstDbfs")
+def extract_dbfs():
+    db = parse("dds/codecs/databricks.py")
+    ct = find_def(db, "CommitType")
+    members = [n.targets[0].id for n in ct.body if isinstance(n, ast.Assign)]
+    api = parse("dds/_api.py")
+    ss = find_def(api, "set_store")
+    dicts = [n for n in ast.walk(ss) if isinstance(n, ast.Dict) and n.keys and all(isinstance(k, ast.Constant) for k in n.keys)]
+    alias = {}
+    for d in dicts:
+        for k, v in zip(d.keys, d.values):
+            if isinstance(v, ast.Constant) and isinstance(k.value, str) and isinstance(v.value, str):
+                alias[k.value] = v.value
+    upper = any(isinstance(n, ast.Call) and isinstance(n.func, ast.Attribute) and n.func.attr == "upper" for n in ast.walk(ss))
+    if not upper:
+        raise Unrecognised("set_store does not upper-case the commit type")
+    default = [ast.unparse(n) for n in ast.walk(ss) if isinstance(n, ast.BoolOp) and "CommitType" in ast.unparse(n)]
+    if default != ["commit_type or CommitType.FULL.name"]:
+        raise Unrecognised(f"default commit type {default}")
+    # legacy codec aliases of DBFSStore.__init__: reference -> class of the codec object bound to it
+    init = find_def(find_def(db, "DBFSStore"), "__init__")
+    var_cls = {}
+    for n in ast.walk(init):
+        if isinstance(n, ast.Assign) and isinstance(n.value, ast.Call) and isinstance(n.value.func, ast.Name) and len(n.targets) == 1 \
+                and isinstance(n.targets[0], ast.Name):
+            var_cls[n.targets[0].id] = n.value.func.id
+    table = []
+    for n in ast.walk(init):
+        if isinstance(n, ast.For) and isinstance(n.iter, ast.List):
+            for e in n.iter.elts:
+                ref, var = e.elts[0].value, e.elts[1].id
+                if var not in var_cls:
+                    raise Unrecognised(f"legacy alias {ref}: unknown variable {var}")
+                table.append((ref, var_cls[var]))
+    if not table:
+        raise Unrecognised("legacy alias table not found")
+    body = HEADER + "(* dds/codecs/databricks.py : CommitType, legacy aliases ; dds/_api.py : set_store *)\n"
+    body += f"Definition c_commit_members : list string := {clist(members)}.\n"
+    body += "Definition c_commit_aliases : list (string * string) := [" + "; ".join(f"({cstr(k)}, {cstr(v)})" for k, v in sorted(alias.items())) + "].\n"
+    body += "Definition c_legacy_aliases : list (string * string) := [" + "; ".join(f"({cstr(k)}, {cstr(v)})" for k, v in table) + "].\n"
+    return body
